@@ -369,6 +369,13 @@ func (w *walker) transfer(st *wstate, in ssa.Instruction, prev *ssa.BasicBlock) 
 		st.vals[x] = avSymOf(x)
 	case *ssa.Defer:
 		st.defers = append(st.defers, x)
+	case *ssa.TypeAssert:
+		// v.(T) without ", ok" yields the dynamic value: a definitely non-nil interface stays a definite value
+		if a := w.eval(st, x.X); !x.CommaOk && a.k == avPtr {
+			st.vals[x] = a
+		} else {
+			st.vals[x] = avSymOf(x)
+		}
 	case *ssa.Call:
 		// an unmodelled call may write through every pointer it is given
 		for _, a := range x.Call.Args {
@@ -521,4 +528,59 @@ func fmtVals(vs []*absVal) string {
 		ps = append(ps, v.String())
 	}
 	return fmt.Sprint(ps)
+}
+
+// errPropagated decides, path-sensitively, whether a non-nil error produced at
+// ev (a call returning error, or the error component extracted from a call) is
+// always reported by the enclosing function: on every path from the entry that
+// evaluates ev, with ev assumed non-nil, the function returns a non-nil error
+// (ev itself, or a value built by an error constructor). The shape of the
+// source (if err != nil { return err } / return f() / named result) does not
+// matter. Returns false with the position of an offending return otherwise.
+func errPropagated(p *Prog, ev ssa.Value) (bool, string) {
+	in, ok := ev.(ssa.Instruction)
+	if !ok || in.Parent() == nil {
+		return false, "-"
+	}
+	fn := in.Parent()
+	res := fn.Signature.Results()
+	errIdx := -1
+	for i := 0; i < res.Len(); i++ {
+		if isErrorType(res.At(i).Type()) {
+			errIdx = i
+		}
+	}
+	if errIdx < 0 {
+		return false, "-"
+	}
+	w := &walker{fn: fn}
+	w.Seed = func(w *walker, st *wstate, v ssa.Value) *absVal {
+		if v == ev {
+			return &absVal{k: avPtr, key: "X:err"}
+		}
+		if c, ok := v.(*ssa.Call); ok && isErrorType(c.Type()) {
+			n, _ := calleeOf(c)
+			if n == "fmt.Errorf" || n == "errors.New" || n == "os.NewSyscallError" || n == "errors.Join" {
+				return &absVal{k: avPtr, key: "X:wrapped"}
+			}
+		}
+		return nil
+	}
+	passes, bad := 0, ""
+	w.OnReturn = func(w *walker, st *wstate, ret *ssa.Return, rs []*absVal) {
+		if _, seen := st.vals[ev]; !seen {
+			return
+		}
+		passes++
+		if errIdx >= len(rs) || rs[errIdx].k != avPtr {
+			if bad == "" {
+				bad = p.Pos(ret.Pos())
+			}
+		}
+	}
+	w.Run()
+	if w.Truncated || passes == 0 {
+		return false, "-"
+	}
+	return bad == "", bad
 }
